@@ -118,30 +118,18 @@ end
 
 theorem lrun_step {whole : List BLine} {f : Nat} {l : BLine} {rest : List BLine} {c c' : Cfg} {o : Out}
     (ih : ∀ L c o c', lrun whole f L c = some (o, c') → LRun whole L c o c')
-    (hl : plainB l = true)
-    (h : (if l == .raw "endlocal & exit /B %_e%" then (asCode (c.ρ "_e")).map (fun k => (Out.exit k, c)) else
-      match stepB l c with
+    (h : (match stepB l c with
       | some (.normal, c1) => lrun whole f rest c1
       | some (.exit k, c') => some (.exit k, c')
       | _ => none) = some (o, c')) : LRun whole (l :: rest) c o c' := by
   split at h
-  · rename_i he
-    have : l = .raw "endlocal & exit /B %_e%" := by simpa using he
-    subst this
-    cases hk : asCode (c.ρ "_e") with
-    | none => simp [hk] at h
-    | some k =>
-      simp only [hk, Option.map_some, Option.some.injEq, Prod.mk.injEq] at h
-      obtain ⟨rfl, rfl⟩ := h
-      exact .finish hk
-  · split at h
-    · rename_i c1 hs
-      exact .simple hs (ih _ _ _ _ h)
-    · rename_i k c2 hs
-      simp only [Option.some.injEq, Prod.mk.injEq] at h
-      obtain ⟨rfl, rfl⟩ := h
-      exact .exit hs
-    · simp at h
+  · rename_i c1 hs
+    exact .simple hs (ih _ _ _ _ h)
+  · rename_i k c2 hs
+    simp only [Option.some.injEq, Prod.mk.injEq] at h
+    obtain ⟨rfl, rfl⟩ := h
+    exact .exit hs
+  · simp at h
 
 theorem lrun_sound (whole : List BLine) : ∀ (f : Nat) (L : List BLine) (c : Cfg) (o : Out) (c' : Cfg),
     lrun whole f L c = some (o, c') → LRun whole L c o c'
@@ -179,16 +167,68 @@ theorem lrun_sound (whole : List BLine) : ∀ (f : Nat) (L : List BLine) (c : Cf
       · simp at h
     | elseOpen => simp [lrun, stepB] at h
     | elseIfOpen t => simp [lrun, stepB] at h
-    | set n v => simp only [lrun] at h; exact lrun_step ih rfl h
-    | setA n a op b => simp only [lrun] at h; exact lrun_step ih rfl h
-    | ifSet q a os b hh x y => simp only [lrun] at h; exact lrun_step ih rfl h
-    | andSet a b hh => simp only [lrun] at h; exact lrun_step ih rfl h
-    | orSet a b hh => simp only [lrun] at h; exact lrun_step ih rfl h
-    | call n args => simp only [lrun] at h; exact lrun_step ih rfl h
-    | goto n => simp only [lrun] at h; exact lrun_step ih rfl h
-    | raw t => simp only [lrun] at h; exact lrun_step ih rfl h
+    | set n v => simp only [lrun] at h; exact lrun_step ih h
+    | setA n a op b => simp only [lrun] at h; exact lrun_step ih h
+    | ifSet q a os b hh x y => simp only [lrun] at h; exact lrun_step ih h
+    | andSet a b hh => simp only [lrun] at h; exact lrun_step ih h
+    | orSet a b hh => simp only [lrun] at h; exact lrun_step ih h
+    | call n args => simp only [lrun] at h; exact lrun_step ih h
+    | goto n =>
+      simp only [lrun] at h
+      by_cases hn : n = "end"
+      · subst hn
+        simp only [beq_self_eq_true, if_true] at h
+        split at h
+        · rename_i k c2 hs
+          simp only [Option.some.injEq, Prod.mk.injEq] at h
+          obtain ⟨rfl, rfl⟩ := h
+          exact .exit hs
+        · simp at h
+      · have hne : (n == "end") = false := by simpa using hn
+        simp only [hne, Bool.false_eq_true, if_false] at h
+        split at h
+        · rename_i tgt ht
+          exact .gotoL hn ht (ih _ _ _ _ h)
+        · simp at h
+    | raw t =>
+      simp only [lrun] at h
+      by_cases hp : nopRaw t = true
+      · simp only [hp, if_true] at h
+        exact .nop hp (ih _ _ _ _ h)
+      · simp only [hp, Bool.false_eq_true, if_false] at h
+        by_cases he : t = "endlocal & exit /B %_e%"
+        · subst he
+          simp only [beq_self_eq_true, if_true] at h
+          cases hk : asCode (c.ρ "_e") with
+          | none => simp [hk] at h
+          | some k =>
+            simp only [hk, Option.map_some, Option.some.injEq, Prod.mk.injEq] at h
+            obtain ⟨rfl, rfl⟩ := h
+            exact .finish hk
+        · have hne : (t == "endlocal & exit /B %_e%") = false := by simpa using he
+          simp only [hne, Bool.false_eq_true, if_false] at h
+          exact lrun_step ih h
 
 /-! ### the line-level relation is deterministic -/
+
+theorem stepB_raw_some {t : String} {c : Cfg} {r : Out × Cfg} (h : stepB (.raw t) c = some r) : t = "rem No operation" := by
+  simp only [stepB] at h
+  split at h
+  · rename_i ht; simpa using ht
+  · simp at h
+
+theorem stepB_goto_some {n : String} {c : Cfg} {r : Out × Cfg} (h : stepB (.goto n) c = some r) : n = "end" := by
+  simp only [stepB] at h
+  split at h
+  · rename_i hn; simpa using hn
+  · simp at h
+
+theorem nopRaw_rem : nopRaw "rem No operation" = false := by simp [nopRaw, List.isPrefixOf]
+theorem nopRaw_endlocal : nopRaw "endlocal & exit /B %_e%" = false := by simp [nopRaw, List.isPrefixOf]
+
+theorem nop_not_step {t : String} {c : Cfg} {r : Out × Cfg} (hp : nopRaw t = true) (hs : stepB (.raw t) c = some r) : False := by
+  rw [stepB_raw_some hs, nopRaw_rem] at hp
+  simp at hp
 
 theorem LRun.det {whole : List BLine} {L : List BLine} {c : Cfg} {o1 o2 : Out} {c1 c2 : Cfg}
     (h1 : LRun whole L c o1 c1) (h2 : LRun whole L c o2 c2) : o1 = o2 ∧ c1 = c2 := by
@@ -207,6 +247,8 @@ theorem LRun.det {whole : List BLine} {L : List BLine} {c : Cfg} {o1 o2 : Out} {
     | close _ => simp [stepB] at hs
     | plabel _ => simp [stepB] at hs
     | finish _ => simp [stepB] at hs
+    | nop hp _ => exact (nop_not_step hp hs).elim
+    | gotoL hne _ _ => exact absurd (stepB_goto_some hs) hne
   | exit hs =>
     cases h2 with
     | simple hs' _ => rw [hs] at hs'; simp at hs'
@@ -220,6 +262,8 @@ theorem LRun.det {whole : List BLine} {L : List BLine} {c : Cfg} {o1 o2 : Out} {
     | close _ => simp [stepB] at hs
     | plabel _ => simp [stepB] at hs
     | finish _ => simp [stepB] at hs
+    | nop hp _ => exact (nop_not_step hp hs).elim
+    | gotoL hne _ _ => exact absurd (stepB_goto_some hs) hne
   | label _ ih =>
     cases h2 with
     | label r' => exact ih r'
@@ -279,5 +323,17 @@ theorem LRun.det {whole : List BLine} {L : List BLine} {c : Cfg} {o1 o2 : Out} {
     | finish hk' => rw [hk] at hk'; simp only [Option.some.injEq] at hk'; exact ⟨by rw [hk'], rfl⟩
     | simple hs' _ => simp [stepB] at hs'
     | exit hs' => simp [stepB] at hs'
+    | nop hp _ => rw [nopRaw_endlocal] at hp; simp at hp
+  | nop hp _ ih =>
+    cases h2 with
+    | nop _ r' => exact ih r'
+    | simple hs' _ => exact (nop_not_step hp hs').elim
+    | exit hs' => exact (nop_not_step hp hs').elim
+    | finish _ => rw [nopRaw_endlocal] at hp; simp at hp
+  | gotoL hne ht _ ih =>
+    cases h2 with
+    | gotoL _ ht' r' => rw [ht] at ht'; simp only [Option.some.injEq] at ht'; subst ht'; exact ih r'
+    | simple hs' _ => exact absurd (stepB_goto_some hs') hne
+    | exit hs' => exact absurd (stepB_goto_some hs') hne
 
 end Tsh.SemB
